@@ -52,6 +52,8 @@ FIXED.update({
  "a function with two parameters of the same name and a default argument crashed": ("C04", "fn f(a, a, b = 3) = b ; f(1, 2): index out of bounds in calculate_named_arg_order"),
  "parse time was exponential in the nesting depth of parenthesised expressions": ("C04", "(a = (a = ( ... 1))) nested 24 deep does not finish in a minute"),
  "a host function used as a function value returned no value": ("C11,C01", "let f = readline ; let s = f() (zero-parameter host function through a value): the wrapper ends with ReturnVoid and the caller reads a stale slot; let p = print_string ; 10 + { p(\"x\") ; 5 } faults (the argument stays on the stack)"),
+ "a lambda or task in a generic function crashed the VM when a captured variable": ("C01,C22", "fn keep(x: T) -> int { let f = () -> { let y = x ; 1 } ; f() } ; keep(nil): internal error store_offset (the lambda body is compiled with T unresolved although x has no slot)"),
+ "a name bound inside the target of an assignment": ("C03", "a[match k { .some(i) -> i  .none -> 0 }] = 5: no entry found for key (the binding i has no stack slot)"),
  "looking up an interface implementation panicked": ("C04,C34", 'type Gg = { aa: string = "x"! } ; implement ToString for <undefined type>'),
  "an array type annotation without a type argument": ("C04,C34", "let a: array<> = [1]"),
  "the push/pop peephole underflowed": ("C04", "type Gg = {..}; Gg as an expression statement: subtract with overflow in the optimizer"),
